@@ -118,7 +118,11 @@ def run(ctx):
             "start and end element events use different name expressions: %s" % sorted(names))
     attrs = [c for c in ast.walk(tok_loop) if isinstance(c, ast.Call) and norm(c.func) == "AttributesNSImpl"]
     r.idiom("R19.2", len(attrs) == 1 and [norm(a) for a in attrs[0].args] == ["%s['data']" % tok, "unadjustForeignAttributes"],
-            "attributes", f.where, "attributes are not passed as AttributesNSImpl(token['data'], unadjustForeignAttributes)")
+            "attributes", f.where, "attributes are not passed as AttributesNSImpl(token['data'], unadjustForeignAttributes)",
+            wrong=[(len(attrs) == 1 and bool(attrs[0].args) and any(isinstance(x, (ast.DictComp, ast.GeneratorExp, ast.ListComp)) and
+                                                                   any(g.ifs for g in x.generators) for x in ast.walk(attrs[0].args[0])),
+                    "to_sax filters the attributes it hands to startElementNS (%s): a tree rebuilt from the events lacks them (xmlns / "
+                    "xmlns:xlink on foreign elements)" % (norm(attrs[0].args[0])[:70] if attrs and attrs[0].args else ""))])
     # R19.3
     adj = ce.const("constants.py", "adjustForeignAttributes")
     un = ce.const("constants.py", "unadjustForeignAttributes")
